@@ -9,7 +9,7 @@ use crate::util::{guard, par_map, Kv};
 
 pub fn meta(_ctx: &Ctx) -> Meta {
     Meta {
-        rule: "6 base networks (dense ranges; shape-preserving conv / deconv ranges; conv(k2,p1)+pool(k2,s1) composite; max-pool as range entry; flat dense output re-read as 1x3x3 at the range entry; range ending in a layer that is flattened for a following dense layer) x EVERY range a <= b whose output shape equals the input shape of a (start / middle / end) x k in 1..3 (4, 5, 6, 9 for two ranges per network) x all 5 accumulations x input skips on/off (with input skips also under a multiplicative / overwrite SKIP-connection accumulation, which must not matter) x 2 exact integer valuations (one of them with inputs scaled by 2^-20; the first also with the network assembled in the other order: each loopback call issued as soon as the layers of its range exist, before the remaining layers are added), plus pairs of disjoint ranges (one or both with input skips) and pairs of OVERLAPPING ranges (nested or sharing a layer; for the outer loop's iterations both readings - plain layers, or layers with the inner loop - are accepted); plus loops NEAR A FIXED POINT: 5 ranges of a 3-layer 2->2 linear network whose repeated map is x -> g x + (1-g) (g = 2 repelling, g = 1/2 attracting) started 1 ulp (8 ulp) from the fixed point, k in {8,16,22}, all 5 accumulations - successive iterates differ by a few ulp and all arithmetic is exact. Oracles: reference interpreter y_0=f(x_a), y_t=f(y_{t-1}[+x_a]), out=comb(y_0;y_1..y_k); with overwrite (no input skips) bit-equality with the plain network in which layers a..b are repeated k+1 times with the same weights. Non-trivial = reference output has >= 2 distinct non-zero entries".into(),
+        rule: "8 base networks (dense ranges; a size-changing deconvolution as range entry restored by a 2x2 convolution / max-pool, with a flattened exit; shape-preserving conv / deconv ranges; conv(k2,p1)+pool(k2,s1) composite; max-pool as range entry; flat dense output re-read as 1x3x3 at the range entry; range ending in a layer that is flattened for a following dense layer) x EVERY range a <= b whose output shape equals the input shape of a (start / middle / end) x k in 1..3 (4, 5, 6, 9 for two ranges per network) x all 5 accumulations x input skips on/off (with input skips also under a multiplicative / overwrite SKIP-connection accumulation, which must not matter) x 2 exact integer valuations (one of them with inputs scaled by 2^-20; the first also with the network assembled in the other order: each loopback call issued as soon as the layers of its range exist, before the remaining layers are added), plus pairs of disjoint ranges (one or both with input skips) and pairs of OVERLAPPING ranges (nested or sharing a layer; for the outer loop's iterations both readings - plain layers, or layers with the inner loop - are accepted); plus loops NEAR A FIXED POINT: 5 ranges of a 3-layer 2->2 linear network whose repeated map is x -> g x + (1-g) (g = 2 repelling, g = 1/2 attracting) started 1 ulp (8 ulp) from the fixed point, k in {8,16,22}, all 5 accumulations - successive iterates differ by a few ulp and all arithmetic is exact. Oracles: reference interpreter y_0=f(x_a), y_t=f(y_{t-1}[+x_a]), out=comb(y_0;y_1..y_k); with overwrite (no input skips) bit-equality with the plain network in which layers a..b are repeated k+1 times with the same weights. Non-trivial = reference output has >= 2 distinct non-zero entries".into(),
         bound: "k <= 3 (9 for two ranges per network), ranges of <= 3 layers, planes 3x3, one channel (thorough: every k in 1..9 and 12 for every range, ranges of <= 5 layers in a 6-layer network, two-channel convolutions, overlapping pairs with (k1,k2) up to 3 under all 5 accumulations)".into(),
         exhaustive: true,
         assumptions: vec!["tolerance 2e-6*max|reference| (mean over 3 operands is not exact); the unrolled-network differential is bit-exact".into()],
@@ -23,6 +23,9 @@ fn bases(thorough: bool) -> Vec<Net> {
     let conv_up = L::Conv { f: 1, k: (2, 2), s: (1, 1), p: (1, 1), d: (1, 1), act: Act::Linear, drop: None };
     let pool = L::Pool { k: (2, 2), s: (1, 1) };
     let pool1 = L::Pool { k: (1, 1), s: (1, 1) };
+    let deconv_up = L::Deconv { f: 1, k: (2, 2), s: (1, 1), p: (0, 0), act: Act::Linear, drop: None };
+    let conv_down = L::Conv { f: 1, k: (2, 2), s: (1, 1), p: (0, 0), d: (1, 1), act: Act::Linear, drop: None };
+    let pool_down = L::Pool { k: (2, 2), s: (1, 1) };
     let mut out = vec![
         Net::new(Dims::Flat(4), vec![d(4, Act::Relu), d(4, Act::Linear), d(4, Act::Linear), d(3, Act::Linear)]),
         Net::new(Dims::Chw(1, 3, 3), vec![conv(Act::Linear), conv(Act::Relu), deconv(Act::Linear), d(3, Act::Linear)]),
@@ -30,6 +33,10 @@ fn bases(thorough: bool) -> Vec<Net> {
         Net::new(Dims::Chw(1, 3, 3), vec![pool1.clone(), conv(Act::Relu), d(3, Act::Linear)]),
         Net::new(Dims::Flat(4), vec![d(9, Act::Linear), conv(Act::Linear), conv(Act::Relu), d(3, Act::Linear)]),
         Net::new(Dims::Chw(1, 3, 3), vec![conv(Act::Linear), conv_up, pool, conv(Act::Linear)]),
+        // a range whose ENTRY is a deconvolution that changes the spatial extent (3x4 -> 4x5), restored by a later layer
+        // (convolution / max-pool with a 2x2 window), and whose exit is flattened for a following dense layer
+        Net::new(Dims::Chw(1, 3, 4), vec![deconv_up.clone(), conv_down, d(3, Act::Linear)]),
+        Net::new(Dims::Chw(1, 3, 3), vec![conv(Act::Linear), deconv_up, pool_down, d(3, Act::Linear)]),
     ];
     if thorough {
         // deeper bound: ranges of up to 5 layers in a 6-layer dense network, and shape-preserving two-channel convolutions
